@@ -146,8 +146,10 @@ func isWordTok(t *kvql.Token) bool {
 // tab and line end are blanks like the space; \xff is a byte that is not
 // valid UTF-8 (a word must carry it unchanged); form feed is a blank the
 // documentation does not mention (the reference abstains, but whatever the
-// lexer makes of it, every token must stand where it says it stands)
-const c16Alphabet = "a1. '\"`=!<>^~&|()[],;+-*/\t\n\xff\f"
+// lexer makes of it, every token must stand where it says it stands); 0xc3
+// 0xa0 together are the letter a-grave, whose last byte read on its own is the
+// Latin-1 no-break space
+const c16Alphabet = "a1. '\"`=!<>^~&|()[],;+-*/\t\n\xff\f\xc3\xa0"
 
 func c16Nontrivial(q string) bool {
 	// a two-character operator, or a quoted literal adjacent to another token
@@ -222,7 +224,7 @@ type c16Tok struct {
 	Word bool   `json:"word"` // word-like (keyword, name, number)
 }
 
-var c16Words = []string{"key", "VALUE", "Select", "where", "AND", "or", "In", "between", "x", "f1", "k_2", "12", "007", "1.5", ".5", "limit", "As", "desc", "true", "put"}
+var c16Words = []string{"key", "VALUE", "Select", "where", "AND", "or", "In", "between", "x", "f1", "k_2", "12", "007", "1.5", ".5", "limit", "As", "desc", "true", "put", "tarif\u00e0", "\u0446\u0435\u0445", "a\u00c5", "\u0105"}
 var c16Ops = []string{"=", "!=", "^=", "~=", "<", "<=", ">", ">=", "+", "-", "*", "/", "!", "&", "|"}
 var c16Puncts = []string{"(", ")", "[", "]", ",", ";"}
 var c16Inner = []string{"", "a", "A b", "k=1", "x<=y", "(", "a,b", " ", "!", "and", "1+2", "ü", "a;b|c&d"}
